@@ -1,2 +1,15 @@
-(* C08 placeholder: statements follow with Model/StackProto.v *)
-From RT Require Import Model.StackTrace.
+(* C08 -- locks are exclusive and only released by their owner.  Statements only.
+   [c08_ok]: along EVERY schedule, every successful remove or rename of a
+   *.lock path is performed by the handle whose exclusive create made that
+   file, and a lock path never has two owners. *)
+From Coq Require Import List NArith Arith Bool.
+From RT Require Import Model.StackTrace Model.StackProto Proofs.LockProofs.
+Import ListNotations.
+
+Theorem C08_exclusive_owner_only : forall size_oracle attempts tabs scripts sched,
+  c08_ok (trace_of size_oracle attempts tabs scripts sched) = true.
+Proof. exact c08_all_traces. Qed.
+Print Assumptions C08_exclusive_owner_only.
+
+(* every API program respects lock ownership whatever the file system answers
+   (the sequential heart of the argument) is Proofs/LockProofs.wp_call_prog *)
